@@ -99,7 +99,7 @@ def parseRows (t : Table) (j : Json) : List Row :=
 def parseBackend (s : Schema) (j : Json) : Backend :=
   let st := parseState (jStr j "state")
   { id := jStr j "id", name := jStr j "name", flags := flagBits s (jStrs j "flags"),
-    state := st, err := jStr j "error", hasData := st == .up || st == .warning, addr := "verif.sock",
+    state := st, err := jStr j "error", hasData := st == .up || st == .warning, addr := "verif.sock", section_ := jStr j "section",
     tables := (jFields (jObj j "tables")).map fun (name, tj) =>
       (name, parseRows ((s.table? name).getD { name := name, cols := [] }) tj) }
 
